@@ -378,3 +378,64 @@ Theorem C07_source_trim : forall (dummy sv ev : Z) (rows : list row),
                       (fst (Gen.FnRanges.fn_trim_row dummy (r_lo r) (r_hi r) sv ev))
                       (snd (Gen.FnRanges.fn_trim_row dummy (r_lo r) (r_hi r) sv ev))) rows.
 Proof. exact fn_trim_rows_eq. Qed.
+
+(* ==== LOOP TIES (function-body translator, tools/fnspecs/ranges_loops.py) ==============
+   Loop bodies of skgenome/intersect.py translated ONE ITERATION at a time from the source text
+   on every run (Gen/FnRangesNested.v, FnRangesIter.v, FnRangesSlices.v, FnRangesInto.v). *)
+From CNV Require Import Proofs.FnRangesNested Proofs.FnRangesIter Proofs.FnRangesSlices Proofs.FnRangesInto.
+From CNV Require Gen.FnRangesNested Gen.FnRangesIter Gen.FnRangesSlices Gen.FnRangesInto.
+From CNV Require Import Model.Into.
+
+(* _irange_nested, one iteration read for one row of the table (position k of n): the row's bit
+   of region_mask and the bounds yielded with it, as generated *)
+Theorem C07_source_nested_elem : forall (k n : Z) (mode : string) (qs : Z) (qe : option Z) (si ei row_end : Z),
+  Gen.FnRangesNested.fn_nested_elem k n mode qs qe si ei row_end
+  = [(src_bit k n (String.eqb mode "inner") qs qe si ei row_end, qs, qe)].
+Proof. exact source_nested_elem. Qed.
+
+(* nested_mask IS the generated bit, row by row, with the model's searchsorted1 for the two
+   searches (numpy's binary search never answers a negative position, so the slice bounds are
+   read as they stand) *)
+Theorem C07_source_nested_mask : forall (t : list row) (m : imode) (qs : Z) (qe : option Z),
+  nested_mask t m qs qe = map_pos (src_row_bit t m qs qe) 0 t.
+Proof. exact source_nested_mask. Qed.
+
+Theorem C07_source_nested : forall (t : list row) (starts : list Z) (ends : list (option Z)) (m : imode),
+  irange_nested t starts ends m =
+  map (fun '(qs, qe) => (SelMask (map_pos (src_row_bit t m qs qe) 0 t), Some qs, qe)) (combine starts ends).
+Proof. exact source_irange_nested. Qed.
+
+(* iter_ranges, one iteration read for one row of the selection: for every mode and every
+   start_val / end_val (None and 0 included) the selection as yielded is the generated row
+   function mapped over it *)
+Theorem C07_source_iter_row : forall (m : qmode) (sv ev : option Z) (d1 d2 : Z) (sub : list row),
+  (match m with QTrim => trim_rows sv ev sub | _ => sub end) = map (src_iter_row m sv ev d1 d2) sub.
+Proof. exact source_iter_ranges. Qed.
+
+Theorem C07_source_iter_ranges : forall (t : list row) (starts ends : option (list Z)) (m : qmode) (d1 d2 : Z),
+  iter_ranges t starts ends m =
+  map (fun '(s, sv, ev) => map (src_iter_row m sv ev d1 d2) (apply_sel s t))
+      (idx_ranges t starts ends (imode_of m)).
+Proof. exact source_iter_ranges_all. Qed.
+
+(* iter_slices, one iteration: `if keep_empty or len(indices): yield indices` *)
+Theorem C07_source_slices_step : forall (keep_empty : bool) (labels : list Z),
+  Gen.FnRangesSlices.fn_slices_step keep_empty labels =
+  if keep_empty || negb (Z.of_nat (length labels) =? 0) then [labels] else [].
+Proof. exact source_slices_step. Qed.
+
+Theorem C07_source_slices : forall (t : list row) (starts ends : option (list Z)) (m : imode) (keep_empty : bool),
+  map (map r_id)
+      (filter (fun sub => match sub with [] => keep_empty | _ => true end)
+              (map (fun '(s, _, _) => apply_sel s t) (idx_ranges t starts ends m))) =
+  flat_map (fun '(s, _, _) => Gen.FnRangesSlices.fn_slices_step keep_empty (map r_id (apply_sel s t)))
+           (idx_ranges t starts ends m).
+Proof. exact source_slices_chrom. Qed.
+
+(* into_ranges' per-range summary series2value IS the generated function *)
+Theorem C07_source_series2value : forall (d : string) (f : list (Z * string) -> option string)
+                                         (hits : list (Z * string)),
+  series2value d f hits =
+  option_map (Gen.FnRangesInto.fn_series2value (zlen hits) d (first_value d hits))
+             (if zlen hits <=? 1 then Some d else f hits).
+Proof. exact source_series2value. Qed.
